@@ -144,7 +144,8 @@ def cross_map_pairs(thorough):
         out.append((a, b))
     return out, skipped
 DOC_ORDER = ['837p', '837p_bad', '834_5010', '835', '999', '278', 'multi_isa', '834_delims']
-OPNAME = {'v': 'validate', 'c': 'context', 'x': 'xml2x12', 'V': 'validate[charset=B,exclude=states]', 'C': 'context[charset=B,exclude=states]'}
+OPNAME = {'P': 'validate[map_path=site copy whose codes.xml lacks state MI]', 'v': 'validate', 'c': 'context', 'x': 'xml2x12', 'V': 'validate[charset=B,exclude=states]', 'C': 'context[charset=B,exclude=states]'}
+MAPPATH_DOCS = ('837p', '834_5010')      # documents with a state code MI: validated under another map directory as well
 VARIANT_DOCS = ('834_5010', '834_delims', '837p')       # documents with lower-case text / state codes, sensitive to the variant
 
 
@@ -158,6 +159,8 @@ def alphabet_full():
         if d in VARIANT_DOCS:
             evs.append((d, 'V', 'F'))
             evs.append((d, 'C', 'F'))
+        if d in MAPPATH_DOCS:
+            evs.append((d, 'P', 'F'))
     return evs
 
 
@@ -227,7 +230,7 @@ def mask_html(text):
 
 
 def mask(op, obs):
-    op = op.lower()
+    op = 'v' if op == 'P' else op.lower()
     if op != 'v':
         return obs
     o = dict(obs)
@@ -257,11 +260,38 @@ class Ctx(object):
         return self.maps[k]
 
 
-def op_validate(text, param):
+_ALT = [None, None]
+
+
+def alt_map_dir():
+    """a site copy of the map directory (links to the shipped files) whose codes.xml lacks the state code MI: the same
+    document has a different, equally well defined result under this map_path"""
+    import tempfile, shutil, atexit
+    if _ALT[0] is not None and os.path.isdir(_ALT[0]):
+        return _ALT[0]
+    src = os.path.join(os.path.dirname(pyx12.__file__), 'map')
+    d = tempfile.mkdtemp(prefix='c18_maps_', dir='/dev/shm' if os.path.isdir('/dev/shm') else None)
+    for f in os.listdir(src):
+        if f == 'codes.xml':
+            t = open(os.path.join(src, f), encoding='utf-8').read()
+            assert t.count('<code>MI</code>') >= 1
+            open(os.path.join(d, f), 'w', encoding='utf-8').write(t.replace('<code>MI</code>', '', 1))
+        else:
+            os.symlink(os.path.join(src, f), os.path.join(d, f))
+    _ALT[0], _ALT[1] = d, os.getpid()
+
+    def _rm():
+        if os.getpid() == _ALT[1]:
+            shutil.rmtree(d, ignore_errors=True)
+    atexit.register(_rm)
+    return d
+
+
+def op_validate(text, param, map_path=None):
     f9, fh, fx = io.StringIO(), io.StringIO(), io.StringIO()
     obs = {}
     try:
-        obs['verdict'] = repr(pyx12.x12n_document.x12n_document(param, io.StringIO(text), f9, fh, fd_xmldoc=fx))
+        obs['verdict'] = repr(pyx12.x12n_document.x12n_document(param, io.StringIO(text), f9, fh, fd_xmldoc=fx, map_path=map_path))
     except Exception as e:
         obs['raises'] = '%s@%s' % (type(e).__name__, core.where(e))
     obs['ack'] = f9.getvalue()
@@ -328,6 +358,8 @@ def run_event(ev, ctx, xml_of):
         param.set('charset', 'B')
         param.set('exclude_external_codes', 'states')
         op = op.lower()
+    if op == 'P':
+        return op_validate(text, pyx12.params.params(), map_path=alt_map_dir())
     if fl == 'M':
         pyx12.map_if.load_map_file = ctx.loader
     try:
@@ -408,7 +440,7 @@ def first_diff(a, b):
 
 
 def compare(op, got, want):
-    op = op.lower()
+    op = 'v' if op == 'P' else op.lower()
     """-> [(component, description)]"""
     out = []
     if got.get('raises') != want.get('raises'):
@@ -438,7 +470,7 @@ def baselines_for(pairs, jobs):
     All four hash seeds are run for every event; `x` events need the XML of the document's `v` event."""
     pairs = sorted(set(pairs))
     need_v = sorted(set(d for d, op in pairs if op in ('v', 'x')))
-    first = [(d, 'v') for d in need_v] + [(d, op) for d, op in pairs if op in ('c', 'V', 'C')]
+    first = [(d, 'v') for d in need_v] + [(d, op) for d, op in pairs if op in ('c', 'V', 'C', 'P')]
     raw = {}
     mine = own_seed()
     seeds = tuple(SEEDS) + (() if mine in SEEDS else (mine,))
@@ -595,6 +627,7 @@ def run(R):
     global BASE, XML
     seqs, nfull, n2, n3 = sequences(R.tier)
     pairs = sorted(set((d, op) for d, op, _ in alphabet_full()))
+    alt_map_dir()           # created before the workers fork, removed when this process exits
     xp, xskip = cross(R.tier)
     pairs += sorted(set((d, op) for ab in xp for d in ab for op in ('v', 'c')))
     R.total.counters['cross-map pairs'] = len(xp)
@@ -610,7 +643,7 @@ def run(R):
     nshards = max(1, min(len(seqs), core.NPROC * 8))
     shards = [seqs[i::nshards] for i in range(nshards)]
     R.pmap(work, shards)
-    R.bounds = {'documents': DOC_ORDER, 'events': nfull, 'event': 'document x {validate, context} x {fresh params, reused params, reused params+maps} + document x xml2x12 + 3 documents x {validate, context} under other parameter values (charset B, external set states excluded)',
+    R.bounds = {'documents': DOC_ORDER, 'events': nfull, 'event': 'document x {validate, context} x {fresh params, reused params, reused params+maps} + document x xml2x12 + 3 documents x {validate, context} under other parameter values (charset B, external set states excluded) + 2 documents validated under another map_path (a site copy whose codes.xml lacks a state code)',
                 'cross-map pairs': 'for every (node id, parent id) that occurs in several maps with different repeat limits (%s): document A of the stricter map enters the node once, document B of the other map repeats it once more than A allows; sequences [A,B], [B,A] validated and [A,B] read by the context reader' % ('loops and segments' if R.thorough else 'loops'),
                 'sequences_len<=2': n2, 'sequences_len3_over_24_event_subalphabet': n3,
                 'hash_seeds': list(SEEDS), 'baseline_interpreters': nbase,
